@@ -88,7 +88,9 @@ class Atom:
         self.bonded_atoms: List[Atom] = []
         self.set_properties(line)
         fmt = "{r.name:3s}{r.res_num:>4d}{r.chain_id:>2s}"
-        self.residue_label = fmt.format(r=self)
+        # the insertion code is part of a residue's identity (52 and 52A are
+        # different residues)
+        self.residue_label = fmt.format(r=self) + self.icode.strip()
 
     def set_properties(self, line: Optional[str]):
         """Line from PDB file to set properties of atom.
